@@ -162,6 +162,7 @@ def run(ctx):
     from . import e2e_rules as _e2e
 
     ctx.attempt(_e2e.dynamics_rule, ctx, 'R18.E1')
+    ctx.attempt(_e2e.hyperelastic_rule, ctx, 'R18.E2')
     ctx.attempt(kinematics_rule, ctx)
     from .c18ops import operator_rule, surface_operator_rule, clenshaw_curtis_rule, adaptive_bookkeeping_rule
 
